@@ -168,3 +168,39 @@ def par_map(fn, items, workers=16):
     import concurrent.futures
     with concurrent.futures.ThreadPoolExecutor(max_workers=workers) as ex:
         return list(ex.map(fn, items))
+
+
+# ----------------------------------------------------------------------------- additions for C01
+def outer_disc(d, extra_bits=12):
+    """A disc with short dyadic centre/radius that CONTAINS the closed disc d (so: no root in it => no root in d;
+    at most m roots in it => at most m roots in d)."""
+    z0, z1, r = d
+    if r is None or r < 0: return None
+    if r == 0:
+        k = 64
+    else:
+        k = -_ilog2_floor(r) + extra_bits
+    sc = Fr(2) ** k if k >= 0 else Fr(1, 1 << -k)
+    a = Fr(round(z0 * sc)) / sc; b = Fr(round(z1 * sc)) / sc
+    rr = Fr(math.ceil((r + 1 / sc) * sc)) / sc          # |z - z'| <= 2^-k (sup-norm 2^-(k+1) per coordinate)
+    return (a, b, rr)
+
+
+def count_discs_bounds(orc, discs):
+    """[(lo, hi)] with BOTH bounds valid for the closed disc (lo <= #roots in d <= hi), using short inner/outer
+    discs first (lo from an inner disc, hi from an outer disc are valid bounds for d itself) and the full-length
+    numbers only where the short answers do not already decide 'exactly lo == hi' or 'hi == 0'."""
+    n = len(discs)
+    inner = [inner_disc(d) for d in discs]; outer = [outer_disc(d) for d in discs]
+    lo = [0] * n; hi = [None] * n
+    ii = [i for i in range(n) if inner[i] is not None]
+    if ii:
+        for i, (l, h) in zip(ii, orc.count([inner[i] for i in ii])): lo[i] = l
+    oi = [i for i in range(n) if outer[i] is not None]
+    if oi:
+        for i, (l, h) in zip(oi, orc.count([outer[i] for i in oi])): hi[i] = h
+    rest = [i for i in range(n) if discs[i][2] is not None and (hi[i] is None or (lo[i] != hi[i] and hi[i] != 0))]
+    if rest:
+        for i, (l, h) in zip(rest, orc.count([discs[i] for i in rest])):
+            lo[i] = max(lo[i], l); hi[i] = h if hi[i] is None else min(hi[i], h)
+    return [(lo[i], hi[i]) for i in range(n)]
